@@ -120,6 +120,25 @@ func gen(tier string, rng *h.Rng, emit func(string)) {
 			}
 		}
 	}
+	// concurrent use of one key object (bls.Verify must not write to its arguments)
+	for i := 0; i < pick(4, 12); i++ {
+		sk := sks[4+rng.Intn(len(sks)-4)]
+		if i == 3 {
+			sk = rm1
+		}
+		ms := msgs[4+rng.Intn(len(msgs)-4)]
+		S := validSig(sk, msgOf(ms))
+		sig, mode, rounds, n := bnref.Enc1(S), "mul", pick(200, 600), 8
+		switch i {
+		case 1:
+			mode, rounds = "sum", pick(100, 300)
+		case 2: // a rejected signature: every goroutine must reject
+			sig, rounds = bnref.Enc1(bnref.Neg1(S)), pick(60, 200)
+		case 3: // single goroutine: inputs and key unmodified
+			rounds, n = 20, 1
+		}
+		emit(fmt.Sprintf("conc %s %s %s %s %d %d", sk, ms, h.Hex(sig), mode, rounds, n))
+	}
 	// identity public key / identity signature / hash of the empty message with every special key
 	for _, sk := range sks[:4] {
 		emit(fmt.Sprintf("verify %s - %s", sk, h.Hex(make([]byte, 64))))
